@@ -94,11 +94,11 @@ def condsViolation (L : Limits) (cs : List Cond) : Option String :=
   else if hasDupTypes cs then some "condition-types-not-unique"
   else cs.findSome? (condViolation L)
 
-/-- First limit a status of a merging kind violates, if any. -/
-def statusViolation (L : Limits) (st : Status) : Option String :=
+/-- First limit a status violates, if any. `merging`: entries carry a controller name. -/
+def statusViolation (L : Limits) (merging : Bool) (st : Status) : Option String :=
   if st.length > L.maxEntries then some "entries-exceed-maxItems"
   else st.findSome? fun e =>
-    if e.ctlr.isEmpty then some "controllerName-empty" else condsViolation L e.conds
+    if merging && e.ctlr.isEmpty then some "controllerName-empty" else condsViolation L e.conds
 
 /-! ### Ancestor-list-full checks -/
 
